@@ -58,6 +58,17 @@ CLAIMS = {
         "n) passed to fd_weights is compared exactly with the model's stores; values on dyadic grids with a rounding bound. "
         "Partial: rounding / np.dot are not modelled.",
    technique="Lean 4 proof (index bookkeeping by omega + C15 per window) + exact correspondence of the store sequence"),
+ 'C14': dict(
+   text="Lean 4 theorems: epsStep_diag / epsRun_diag / epsalg_returns_even_order prove that EpsAlg's in-place downward sweep "
+        "(model mirroring the loop with aux1/aux2 and the 1e-60 guard) holds after n terms exactly the anti-diagonal of Wynn's "
+        "table and returns eps_{n-1-(n-1)%2}^{((n-1)%2)}, for every sequence with no vanishing difference and every length; "
+        "epsalg_one_transient proves L + a q^k is recovered from three terms with no zero denominator; "
+        "dea_abserr_floor_every_call proves abserr >= 5 eps |result| on every successful Dea call (after the two fix: commits). "
+        "Tie: the Float models of EpsAlg and of Dea (checked array accesses, numpy slice semantics, res3la view, table shift) "
+        "reproduce the implementation bit for bit including _n, _nres, the final table and the exception outcome. Partial: "
+        "Dea's totality (no IndexError for every sequence/limexp) is validated by the bit-exact model runs and the search, not "
+        "yet by a theorem; k>1 transients from 2k+1 terms (Wynn's identity) is validated by exact-rational runs only.",
+   technique="Lean 4 proof by loop invariant (in-place sweep = Wynn table) + bit-exact Float correspondence incl. state"),
 }
 
 checks = []
